@@ -3,7 +3,7 @@ import os
 from vlib import Check, tlc_mc, run_harness, tlc_validate, workdir, require_actions, build_harness
 
 CLASSES = {
-    "C05": {"status", "headers", "body", "log", "applied", "attribution", "script_mismatch", "panic", "trace_rejected"},
+    "C05": {"status", "headers", "body", "log", "applied", "attribution", "script_mismatch", "unit_trace_changes_result", "panic", "trace_rejected"},
     "C06": {"handoff_decode", "handoff_reserialise", "handoff_behaviour", "request_json_roundtrip", "panic", "trace_rejected"},
     "C11": {"order_permutation", "order_insertion", "rebuild_differs", "panic", "trace_rejected"},
 }
